@@ -63,7 +63,7 @@ fn later_use(mode: u8, data: &[u8], ctx: Ctx, j: usize, k: usize) -> Option<Stri
 
 pub fn run(em: &mut Emitter, rng: &mut Rng, thorough: bool) {
     let ctxs = [Ctx::Top, Ctx::Definite, Ctx::Indefinite];
-    for _ in 0..(if thorough { 50_000 } else { 5_000 }) {
+    for _ in 0..(if thorough { 200_000 } else { 5_000 }) {
         let mode = rng.below(3) as u8;
         let ctx = *rng.pick(&ctxs);
         if !ctx_ok(mode, ctx) { continue }
